@@ -1,18 +1,68 @@
 """C03 - dynamic bitset and bitset view behave as a resizable sequence of bools.
 
+ 0. Signature table (harness/bitset/sigprobe.cpp): the types the property's wording depends on, as
+    static_asserts; a failing row is a violation.  If the conformance driver then does not build,
+    call probes (harness/bitset/callprobe.cpp) tell a call the property names that no longer
+    compiles (violation) from a harness that needs maintenance (machinery error).
  1. TLC: Bitset.tla (L1) invariants/laws, small widths, two objects (exhaustive in bounds).
- 2. TLC: BitsetImpl.tla (L2, block-level transcription of the code) refines Bitset.tla.
+ 2. TLC: BitsetImpl.tla (L2, block-level transcription of the code) refines Bitset.tla; deep
+    single-target configurations (7 bits at W=3) in the thorough tier.
  3. S->C: TLC enumerates every (state, operation, argument) transition of L1 at block width 8
-    (sizes crossing the block boundary); the transition graph is walked and replayed on the real
-    xdynamic_bitset<uint8_t> / view; TLC simulation walks add longer histories.
- 4. C->S: seeded random scripts for uint8/16/32/64 blocks with boundary-biased sizes and shifts.
- Every recorded trace is validated by TLC against BitsetTrace.tla (L1 is the oracle).
+    (sizes crossing the block boundary); a sample stratified over actions and argument classes
+    (25 000 transitions, 300 000 in the thorough tier) is replayed on the real xdynamic_bitset<uint8_t> / view;
+    TLC simulation walks add longer histories.
+ 4. C->S: seeded random scripts for uint8/16/32/64 blocks with boundary-biased sizes and shifts,
+    run on several builds of the driver (g++ -O1 ASan; g++ -O2 -DNDEBUG; thorough: clang++ ASan, g++ -O0).
+ Every recorded trace is validated by TLC against BitsetTrace.tla (L1 is the oracle).  A driver
+ that crashes, trips a sanitizer or exceeds its per-call CPU limit closes the trace with a Crash
+ event (rejected by the spec) and is restarted at the next execution of the script.
 """
-import json, os, random
-from vlib import core, tlaval
+import json, os, random, re, subprocess, threading
+from concurrent.futures import ThreadPoolExecutor
+from vlib import core, tlaval, drvrun
 from vlib.core import MachineryError
 
+PID = "C03"
+# development aid (mutation experiments): VERIF_DEV_FAST=1 skips the stages that do not depend on the include tree under
+# test (TLC on L1/L2) and caches TLC's enumeration of the L1 transitions; never set by the registered commands
+FAST = bool(os.environ.get("VERIF_DEV_FAST"))
+# development aid: VERIF_DEV_STAGES=rnd runs only the primary driver build with the seeded random scripts, the upstream
+# sequences and the probes (a subset of the check: what it rejects, the whole check rejects)
+ONLY_RND = os.environ.get("VERIF_DEV_STAGES") == "rnd"
+HDIR = os.path.join(core.HARNESS, "bitset")
 IL_LENS = list(range(0, 13)) + [17, 33, 65]
+SIG_ROWS = 30
+# (n, named by the property?, what)
+CALL_PROBES = [
+    (1, True, "constructors xdynamic_bitset(), (n), (n, value)"),
+    (2, True, "initializer-list constructor / assign(initializer_list)"),
+    (3, True, "block-range constructor / assign(first, last)"),
+    (4, True, "copy construction and copy assignment from an owning bitset and from a view"),
+    (5, True, "xdynamic_bitset_view(ptr, size) and view.resize"),
+    (6, True, "assign(n, v), resize(n), resize(n, v), clear, push_back, pop_back"),
+    (7, True, "set/reset/flip of all bits and of one bit (owning and view)"),
+    (8, True, "<<=, >>=, <<, >>"),
+    (9, True, "&=, |=, ^= between owning bitsets and views"),
+    (10, True, "~, &, |, ^ returning a new bitset"),
+    (11, True, "swap: member (owning, views), std::swap, ADL swap"),
+    (12, True, "at(i), const and non-const"),
+    (13, True, "operator[], front, back, const and non-const"),
+    (14, True, "iterators: begin/cbegin/rbegin/crbegin, +, ++, *, writes through *it"),
+    (15, True, "element reference: = bool, = reference, &=, |=, ^=, flip, ~, address-of"),
+    (16, True, "size, empty, count, any, all, none, block_count, data"),
+    (17, True, "== and != between owning bitsets and views"),
+    (18, False, "move construction / move assignment"),
+    (19, False, "reserve, capacity, max_size, allocator constructor"),
+    (20, False, "block_begin / block_end"),
+    (21, False, "std::fill over the iterators"),
+]
+# driver builds: name -> (compiler, extra flags, ASan?)
+FLAVOURS = {"asan": (None, [], True),
+            "o2ndebug": (None, ["-O2", "-DNDEBUG"], False),
+            "clang": ("clang++", [], True),
+            "o0": (None, ["-O0"], False)}
+MAX_DRIVER_RESTARTS = 40          # per script; a tree that crashes more often has been reported often enough
+MAX_REPORTED = 12                 # distinct violations reported with a replay
 
 
 def limbs(val, W):
@@ -24,10 +74,11 @@ class Gen:
     """Random script generator.  Tracks only sizes and kinds (a shadow counter, to stay
     inside the C++ preconditions); it predicts no results."""
 
-    def __init__(self, rnd, W):
+    def __init__(self, rnd, W, caps):
         self.r, self.W = rnd, W
         self.size = [0, 0]
         self.view = [False, False]
+        self.caps = caps
 
     def sizes(self):
         W = self.W
@@ -53,7 +104,7 @@ class Gen:
             out.append(limbs(v, W))
         return out
 
-    def ev(self, op, k, **a):
+    def ev(me, op, k, **a):          # not `self`: "self" is an argument name of the scripts
         return {"op": op, "k": k + 1, "a": a or {"z": 0}}
 
     def step(self):
@@ -65,10 +116,10 @@ class Gen:
         for _ in range(50):
             c = r.random()
             if c < 0.10:     # construction
-                t = r.randrange(7)
+                t = r.randrange(9)
                 if t == 0:
                     self.size[k], self.view[k] = 0, False
-                    return self.ev("CtorDefault", k)
+                    return self.ev(r.choice(["CtorDefault", "CtorAlloc"]), k)
                 if t == 1:
                     m = self.pick_size(); self.size[k], self.view[k] = m, False
                     return self.ev("CtorN", k, n=m)
@@ -84,11 +135,22 @@ class Gen:
                 if t == 5:
                     self.size[k], self.view[k] = self.size[o], False
                     return self.ev("CtorCopy", k)
+                if t in (6, 7):
+                    if own and not self.view[o]:
+                        # move construction / assignment from the other owning bitset; the moved-from object is
+                        # observed (re = 0) when the tree under test keeps it valid, else re-created at once
+                        re_ = 0 if (self.caps["movedfrom"] and r.random() < 0.7) else 1
+                        self.size[k] = self.size[o]
+                        # whatever the source holds afterwards, it is a valid bitset: the shadow size is re-read
+                        # from nothing - so only operations that do not need it follow until it is re-established
+                        self.size[o] = 0 if re_ else None
+                        return self.ev(r.choice(["CtorMove", "MoveAssign"]), k, re=re_)
+                    continue
                 m = self.pick_size()
                 self.size[k], self.view[k] = m, True
                 return self.ev("CtorView", k, blocks=self.rblocks((m + self.W - 1) // self.W), n=m)
             if c < 0.18 and own:
-                t = r.randrange(4)
+                t = r.randrange(5)
                 if t == 0:
                     m = self.pick_size(); self.size[k] = m
                     return self.ev("AssignNV", k, n=m, v=r.randrange(2))
@@ -98,10 +160,12 @@ class Gen:
                 if t == 2:
                     m = r.randrange(0, 4); self.size[k] = m * self.W
                     return self.ev("AssignBlocks", k, blocks=self.rblocks(m))
+                if t == 3:
+                    return self.ev("CopyAssign", k, self=1)
                 self.size[k] = self.size[o]
-                return self.ev("CopyAssign", k)
+                return self.ev("CopyAssign", k, self=0)
             if c < 0.30 and own:
-                t = r.randrange(5)
+                t = r.randrange(7)
                 if t == 0:
                     m = self.pick_size(); self.size[k] = m
                     return self.ev("Resize", k, n=m, v=r.randrange(2))
@@ -117,6 +181,10 @@ class Gen:
                 if t == 4 and r.random() < 0.3:
                     self.size[k] = 0
                     return self.ev("Clear", k)
+                if t == 5:
+                    return self.ev("Reserve", k, n=r.choice([0, 1, n, n + 1, 3 * self.W + 7, 5 * self.W, 1000]))
+                if t == 6 and r.random() < 0.3:
+                    return self.ev("MaxSize", k)
                 continue
             if c < 0.33 and not own:
                 return self.ev("ResizeView", k, n=r.choice([n, n, n + 1, 0, max(n - 1, 0)]))
@@ -131,6 +199,9 @@ class Gen:
             if c < 0.62:
                 return self.ev(r.choice(["ShlEq", "ShrEq", "Shl", "Shr"]), k, p=self.pick_shift(k))
             if c < 0.74:
+                op = r.choice(["AndEq", "OrEq", "XorEq", "And", "Or", "Xor"])
+                if r.random() < 0.12:
+                    return self.ev(op, k, self=1)
                 if self.size[k] != self.size[o]:
                     # make the sizes equal first (a spec-visible step of its own)
                     if not self.view[o] and r.random() < 0.5:
@@ -140,66 +211,106 @@ class Gen:
                         self.size[k] = self.size[o]
                         return self.ev("Resize", k, n=self.size[o], v=r.randrange(2))
                     continue
-                return self.ev(r.choice(["AndEq", "OrEq", "XorEq", "And", "Or", "Xor"]), k)
-            if c < 0.77 and own and not self.view[o]:
+                return self.ev(op, k, self=0)
+            if c < 0.78 and self.view[k] == self.view[o]:
+                if r.random() < 0.15:
+                    return self.ev("Swap", k, how="member", self=1)
                 self.size[k], self.size[o] = self.size[o], self.size[k]
-                return self.ev("Swap", k)
+                how = "member" if self.view[k] else r.choice(["member", "member", "std", "adl"])
+                return self.ev("Swap", k, how=how, self=0)
             if c < 0.83:
                 i = r.choice([0, max(n - 1, 0), n, n + 1, ((n + self.W - 1) // self.W) * self.W - 1 if n else 0,
                               ((n + self.W - 1) // self.W) * self.W, n + 3 * self.W, r.randrange(0, n + 2)])
-                return self.ev("At", k, i=max(i, 0))
+                return self.ev("At", k, c=r.choice(["c", "m"]), i=max(i, 0))
             if c < 0.90 and n > 0:
-                path = r.choice(["cindex", "index", "at", "cat", "front", "cfront", "back", "cback", "iter", "citer", "riter", "criter", "neg"])
+                path = r.choice(["cindex", "index", "at", "cat", "front", "cfront", "back", "cback", "iter", "citer", "riter", "criter", "neg",
+                                 "data", "cdata", "blockit"])
                 i = 0 if "front" in path else n - 1 if "back" in path else r.choice([0, n - 1, r.randrange(n)])
                 return self.ev("Read", k, path=path, i=i)
+            if c < 0.93:
+                i, j = sorted([r.choice([0, n, r.randrange(n + 1)]), r.choice([0, n, r.randrange(n + 1)])])
+                return self.ev("Fill", k, i=i, j=j, v=r.randrange(2))
             if n > 0:
                 path = r.choice(["index", "at", "front", "back", "iter", "riter"])
                 i = 0 if path == "front" else n - 1 if path == "back" else r.choice([0, n - 1, r.randrange(n)])
-                wk = r.choice(["assign", "and", "or", "xor", "flip", "aref"])
+                wk = r.choice(["assign", "and", "or", "xor", "flip", "aref", "ptr"])
                 v = 0 if wk in ("flip", "aref") else r.randrange(2)
                 j = r.randrange(n) if wk == "aref" else 0
                 return self.ev("RefWrite", k, path=path, i=i, wk=wk, v=v, j=j)
         return self.ev("FlipAll", k)
 
+    def next(self):
+        """One event; after a move with an observed source the source's size is unknown to the generator: it is
+        re-established by a constructor before anything else is asked of either object."""
+        if None in self.size:
+            k = self.size.index(None)
+            r = self.r
+            t = r.randrange(6)
+            if t == 0:
+                self.size[k] = 0
+                return self.ev("Clear", k)
+            if t == 1:
+                self.size[k] = self.size[1 - k]
+                return self.ev("CopyAssign", k, self=0)
+            if t == 2:
+                m = r.choice(IL_LENS); self.size[k] = m
+                return self.ev("AssignIL", k, bits=[r.randrange(2) for _ in range(m)])
+            m = self.pick_size()
+            self.size[k] = m
+            if t == 3:
+                return self.ev("AssignNV", k, n=m, v=r.randrange(2))
+            if t == 4:
+                return self.ev("Resize", k, n=m, v=r.randrange(2))
+            return self.ev("Resize1", k, n=m)
+        return self.step()
 
-def random_script(seed, W, nexec, nops):
-    rnd = random.Random(seed * 1000003 + W)
+
+def random_script(seed, W, nexec, nops, caps, build="asan"):
+    rnd = random.Random("%d/%d/%s" % (seed, W, build))
     lines = []
     for _ in range(nexec):
-        g = Gen(rnd, W)
-        lines.append({"op": "Reset", "k": 1, "a": {"W": W}})
+        g = Gen(rnd, W, caps)
+        lines.append({"op": "Reset", "k": 1, "a": {"W": W, "build": build}})
         for _ in range(nops):
-            lines.append(g.step())
+            lines.append(g.next())
     return lines
+
+
+def upstream_script():
+    """The call sequences of /repo/test/test_xdynamic_bitset.cpp (uint64_t blocks, 80 bits), re-run through the logging
+    harness: the same calls, but every observer compared after every call instead of one EXPECT at the end."""
+    W = 64
+    A = 0xAAAAAAAAAAAAAAAA
+    L = [{"op": "Reset", "k": 1, "a": {"W": W, "build": "asan"}}]
+    E = lambda op, k=1, **a: L.append({"op": op, "k": k, "a": a or {"z": 0}})
+    E("CtorDefault"); E("CtorN", n=80); E("CtorNV", n=80, v=1); E("CtorBlocks", blocks=[limbs(A, W)] * 2); E("CtorIL", bits=[1, 1, 0, 1])
+    E("CtorNV", n=40, v=0); E("AssignNV", n=80, v=1); E("CtorNV", n=40, v=0); E("AssignBlocks", blocks=[limbs(A, W)] * 2)
+    E("CtorNV", n=40, v=1); E("AssignIL", bits=[1, 1, 0, 1])
+    E("CtorNV", n=80, v=0); E("Resize", n=100, v=1); E("Resize1", n=40)
+    E("CtorNV", n=80, v=0); E("Clear"); E("CtorDefault"); E("Reserve", n=80)
+    E("CtorNV", n=80, v=0); E("PushBack", v=1); E("Read", path="back", i=80); E("PushBack", v=0); E("Read", path="back", i=81)
+    E("PopBack"); E("Read", path="back", i=80); E("PopBack"); E("Read", path="back", i=79)
+    E("RefWrite", path="at", i=4, wk="assign", v=1, j=0); E("Read", path="index", i=4)
+    E("RefWrite", path="front", i=0, wk="assign", v=1, j=0); E("RefWrite", path="back", i=79, wk="assign", v=1, j=0)
+    for view in (0, 1):
+        E("CtorNV", n=80, v=0)
+        if view:
+            E("CtorView", blocks=[limbs(0, W), limbs(0, W)], n=80)
+        for i in (3, 5, 70):
+            E("Set1", i=i)
+        E("Set", i=3, v=0); E("SetAll"); E("ResetBit", i=3); E("ResetAll"); E("Flip", i=3); E("FlipAll"); E("FlipAll")
+        for i in (2, 77):
+            E("RefWrite", path="iter", i=i, wk="assign", v=1, j=0); E("RefWrite", path="riter", i=i + 1, wk="assign", v=1, j=0)
+        E("Not"); E("ShlEq", p=4); E("ShrEq", p=4); E("Shl", p=4); E("Shr", p=4)
+        E("CtorNV", 2, n=80, v=0); E("Set1", 2, i=3); E("Set1", 2, i=72)
+        E("And", self=0); E("Or", self=0); E("Xor", self=0); E("AndEq", self=0); E("OrEq", self=0); E("XorEq", self=0)
+    return L
 
 
 # ------------------------------------------------------------- TLC -> scripts
 def event_of_last(last):
     a = last["a"]
     return {"op": last["op"], "k": last["k"], "a": a}
-
-
-def setup_events(st, W):
-    """Events that put the two real objects into abstract state st = {obj:[a,b], kind:[..]}."""
-    evs = []
-    for k in (0, 1):
-        bits, kind = st["obj"][k], st["kind"][k]
-        if kind == "own":
-            evs.append({"op": "CtorDefault", "k": k + 1, "a": {"z": 0}})
-            for b in bits:
-                evs.append({"op": "PushBack", "k": k + 1, "a": {"v": b}})
-        else:
-            nb = (len(bits) + W - 1) // W
-            blocks = []
-            for j in range(nb):
-                v = 0
-                for i in range(W):
-                    idx = j * W + i
-                    # bits of caller memory beyond the view's size are set: the view must mask them itself
-                    v |= ((bits[idx] if idx < len(bits) else 1) << i)
-                blocks.append(limbs(v, W))
-            evs.append({"op": "CtorView", "k": k + 1, "a": {"blocks": blocks, "n": len(bits)}})
-    return evs
 
 
 def emitted(out):
@@ -243,22 +354,47 @@ def setup_events(st, W, rnd):
     return evs
 
 
-def edge_scripts(edges, W, rnd, limit=None):
+stratified_sample = drvrun.stratified_sample
+
+
+OBSERVERS = {"At", "Read", "Not", "And", "Or", "Xor", "Shl", "Shr", "ResizeView", "Reserve", "MaxSize"}
+
+
+def enumerate_edges(ctx, cfg):
+    """TLC's enumeration of the L1 transitions of one configuration (tree-independent: cached under VERIF_DEV_FAST)."""
+    cache = None
+    if FAST:
+        stamp = max(os.path.getmtime(os.path.join(core.SPECS, f)) for f in ("Bitset.tla", "BitsetMC.tla", cfg))
+        cdir = os.path.join(core.ROOT, ".work", "C03-cache")
+        os.makedirs(cdir, exist_ok=True)
+        cache = os.path.join(cdir, "%s.%d.json" % (cfg, int(stamp)))
+        if os.path.exists(cache):
+            with open(cache) as f:
+                return json.load(f)
+    r3 = core.tlc(ctx, "BitsetMC", cfg, name="s2c-enumerate-" + cfg[:-4], heap="8g", timeout=2400)
+    if r3["violated"]:
+        raise MachineryError("s2c enumeration failed: %s" % r3["outfile"])
+    es = emitted(r3["out"])
+    r3["out"] = ""
+    if cache:
+        with open(cache, "w") as f:
+            json.dump(es, f)
+    return es
+
+
+def edge_scripts(edges, W, rnd):
     """One execution per source state: Reset, setup, then for each transition out of that state
     the call, followed by re-establishing the source state when the call changed it."""
     by_src = {}
     for e in edges:
         key = json.dumps(e["p"], sort_keys=True)
         by_src.setdefault(key, []).append(e["l"])
-    total = sum(len(v) for v in by_src.values())
-    keep = 1.0 if not limit or total <= limit else limit / float(total)
     lines, taken = [], 0
-    observers = {"At", "Read", "Not", "And", "Or", "Xor", "Shl", "Shr", "ResizeView"}
     for key in sorted(by_src):
         st = json.loads(key)
-        calls = [c for c in by_src[key] if keep >= 1.0 or rnd.random() < keep] or by_src[key][:1]
-        calls.sort(key=lambda c: c["op"] not in observers)      # observers first: no re-setup needed
-        lines.append({"op": "Reset", "k": 1, "a": {"W": W}})
+        calls = by_src[key]
+        calls.sort(key=lambda c: c["op"] not in OBSERVERS)      # observers first: no re-setup needed
+        lines.append({"op": "Reset", "k": 1, "a": {"W": W, "build": "asan"}})
         lines.extend(setup_events(st, W, rnd))
         dirty = False
         for c in calls:
@@ -267,27 +403,32 @@ def edge_scripts(edges, W, rnd, limit=None):
                 lines.extend(setup_events(st, W, rnd))
             lines.append(c)
             taken += 1
-            dirty = c["op"] not in observers
+            dirty = c["op"] not in OBSERVERS
     return lines, taken
 
 
-def sim_scripts(ctx, simdir, W):
+def sim_scripts(ctx, simdir, W, caps):
     lines, n = [], 0
     for fn in sorted(os.listdir(simdir)):
         states = tlaval.parse_sim_trace(os.path.join(simdir, fn))
         if len(states) < 2:
             continue
-        lines.append({"op": "Reset", "k": 1, "a": {"W": W}})
+        lines.append({"op": "Reset", "k": 1, "a": {"W": W, "build": "asan"}})
         for s in states[1:]:
-            lines.append(event_of_last(s["last"]))
+            ev = event_of_last(s["last"])
+            if ev["op"] in ("CtorMove", "MoveAssign") and ev["a"]["re"] == 0:
+                # what the moved-from object holds is up to the implementation: the rest of the walk (which assumed one
+                # particular outcome) cannot be followed; the move itself is replayed when this tree's moved-from
+                # objects can be observed at all
+                if caps["movedfrom"]:
+                    lines.append(ev)
+                break
+            lines.append(ev)
         n += 1
     return lines, n
 
 
-def write_script(path, lines):
-    with open(path, "w") as f:
-        for l in lines:
-            f.write(json.dumps(l, separators=(",", ":")) + "\n")
+write_script = drvrun.write_script
 
 
 def chunk_by_reset(lines, nchunks):
@@ -295,13 +436,20 @@ def chunk_by_reset(lines, nchunks):
     starts = [i for i, l in enumerate(lines) if l["op"] == "Reset"]
     if not starts:
         return [lines]
-    per = max(1, len(starts) // nchunks)
+    per = max(1, (len(starts) + nchunks - 1) // nchunks)
     cuts = starts[::per]
     return [lines[a:b] for a, b in zip(cuts, cuts[1:] + [len(lines)])]
 
 
-def classify(findings):
+signature_of = drvrun.signature_of
+
+
+def classify(findings, ctx):
     def f(ev, execution):
+        ctx.notes.setdefault("_sigs", {})[len(ctx.violations)] = signature_of(ev)
+        if ev.get("res", {}).get("exc") == "desync":
+            # the driver could not follow its script although every earlier step was accepted: the script is wrong
+            raise MachineryError("C03 driver lost track of its script (desync) at an event whose predecessors all conform: %s" % json.dumps(ev)[:400])
         for k in findings:
             m = k.get("match", {})
             if all(ev.get(x) == y or ev.get("a", {}).get(x) == y for x, y in m.items()):
@@ -310,24 +458,45 @@ def classify(findings):
     return f
 
 
-def run_script(ctx, drv, W, script_path, trace_path):
-    import subprocess
-    env = dict(os.environ); env.update(core.ASAN_ENV)
-    with open(script_path) as fin, open(trace_path, "w") as fout:
-        p = subprocess.run([drv, str(W)], stdin=fin, stdout=fout, stderr=subprocess.PIPE, env=env, timeout=1200)
-    if p.returncode == 3:
-        raise MachineryError("harness rejected script %s: %s" % (script_path, p.stderr.decode()[-500:]))
+# ------------------------------------------------------------- running the driver
+def run_script(ctx, drv, W, lines, trace_path, name="script"):
+    """A driver that dies (crash, sanitizer report, CPU limit) has written a Crash event; drvrun records the call it
+    died in and starts the driver again at the next Reset."""
+    return drvrun.run_script(ctx, [drv, str(W)], lines, trace_path, name, max_restarts=MAX_DRIVER_RESTARTS)
+
+
+replay_lines = drvrun.replay_lines
+
+
+def build_driver(ctx, flavour):
+    cxx, flags, asan = FLAVOURS[flavour]
+    drv = os.path.join(ctx.work, "bitset_driver_" + flavour)
+    core.build(ctx, os.path.join(HDIR, "driver.cpp"), drv, flags=flags, asan=asan, cxx=cxx)
+    return drv
 
 
 def replay(ctx, path):
-    """./verif replay C03 <file>: re-run the recorded calls on the current tree and validate."""
-    lines = [l for l in core.read_ndjson(path) if "_meta" not in l]
-    W = next((l["a"]["W"] for l in lines if l["op"] == "Reset"), 8)
-    drv = os.path.join(ctx.work, "bitset_driver")
-    core.build(ctx, os.path.join(core.HARNESS, "bitset", "driver.cpp"), drv)
-    sp, tp = os.path.join(ctx.work, "replay.script"), os.path.join(ctx.work, "replay.ndjson")
-    write_script(sp, lines)
-    run_script(ctx, drv, W, sp, tp)
+    """./verif replay C03 <file>: re-run the recorded calls on the current tree (same block width, same driver
+    build) and validate."""
+    raw = core.read_ndjson(path)
+    meta = next((l["_meta"] for l in raw if "_meta" in l and "kind" in l["_meta"]), {})
+    if meta.get("kind") in ("signature", "callprobe"):
+        rc, out = compile_probe(meta["src"], meta["define"])
+        if rc == 0:
+            print("replay accepted: %s compiles again" % meta.get("what", meta["src"]))
+            return 0
+        print("VIOLATION property=C03 replay=%s" % path)
+        print("  " + out[-1500:])
+        return 1
+    lines = replay_lines(raw)
+    rs = next((l for l in lines if l["op"] == "Reset"), {"a": {"W": 8}})
+    W = rs["a"].get("W", 8)
+    flavour = rs["a"].get("build", "asan")
+    if flavour not in FLAVOURS:
+        flavour = "asan"
+    drv = build_driver(ctx, flavour)
+    tp = os.path.join(ctx.work, "replay.ndjson")
+    run_script(ctx, drv, W, lines, tp, "replay")
     r = core.validate_trace(ctx, "BitsetTrace", "BitsetTrace.cfg", tp)
     if r["accepted"]:
         print("replay accepted: the recorded calls now conform to Bitset.tla")
@@ -337,94 +506,289 @@ def replay(ctx, path):
     return 1
 
 
+# ------------------------------------------------------------- compile-time stage
+def compile_probe(src, define, cxx=None):
+    cmd = [cxx or core.CXX, "-std=c++14", "-fsyntax-only", "-I", core.INCLUDE, "-I", os.path.join(core.HARNESS, "common"), "-D" + define, src]
+    return core.sh(cmd, timeout=300)
+
+
+def signature_stage(ctx):
+    """The static_assert table; every failing row is a violation whose replay names the row."""
+    src = os.path.join(HDIR, "sigprobe.cpp")
+    rc, out = compile_probe(src, "C03_SEL=0")
+    ctx.notes["signature_rows"] = SIG_ROWS
+    if rc == 0:
+        return 0
+    text = open(src).read()
+
+    def one(n):
+        rc1, out1 = compile_probe(src, "C03_SEL=%d" % n)
+        return n, rc1, out1
+    bad = 0
+    with ThreadPoolExecutor(max_workers=core.NCPU) as ex:
+        for n, rc1, out1 in ex.map(one, range(1, SIG_ROWS + 1)):
+            if rc1 == 0:
+                continue
+            bad += 1
+            m = re.search(r"ROW\(%d,(.*?)\);\n" % n, text, re.S)
+            row = re.sub(r"\s+", " ", m.group(1)).strip() if m else "?"
+            first = next((l for l in out1.splitlines() if "error" in l), out1[:300])
+            ctx.violation("signature row %d of harness/bitset/sigprobe.cpp does not hold for this tree: %s ; compiler: %s" % (n, row[:600], first[:400]),
+                          replay_lines=[{"_meta": {"kind": "signature", "src": src, "define": "C03_SEL=%d" % n, "what": "signature row %d" % n}}])
+    if bad == 0:
+        raise MachineryError("sigprobe.cpp does not compile as a whole but every row does on its own:\n%s" % out[-2000:])
+    return bad
+
+
+def call_probe_stage(ctx, build_error):
+    """The driver does not build: which families of calls do not compile?"""
+    src = os.path.join(HDIR, "callprobe.cpp")
+
+    def one(p):
+        rc, out = compile_probe(src, "C03_PROBE=%d" % p[0])
+        return p, rc, out
+    named, extra = 0, []
+    with ThreadPoolExecutor(max_workers=core.NCPU) as ex:
+        for (n, is_named, what), rc, out in ex.map(one, CALL_PROBES):
+            if rc == 0:
+                continue
+            first = next((l for l in out.splitlines() if "error" in l), out[:300])
+            if is_named:
+                named += 1
+                ctx.violation("a call the property names no longer compiles against this tree: %s (harness/bitset/callprobe.cpp, probe %d); compiler: %s" % (what, n, first[:500]),
+                              replay_lines=[{"_meta": {"kind": "callprobe", "src": src, "define": "C03_PROBE=%d" % n, "what": what}}])
+            else:
+                extra.append(what)
+    return named, extra
+
+
+def probe_moved_from(ctx, drv):
+    """Is a moved-from xdynamic_bitset a valid bitset on this tree?  Two moves through the driver, validated by L1; a
+    control script with copies instead of moves tells a tree that is broken anyway (reported by the other stages) from one
+    whose moved-from objects are the problem.  Returns (observable?, script to report or None)."""
+    verdicts = {}
+    for what, ops in (("copy", ("CtorCopy", "CopyAssign")), ("move", ("CtorMove", "MoveAssign"))):
+        ok, first_bad = True, None
+        for W, n in ((8, 5), (64, 64)):
+            a = {"re": 0} if what == "move" else {"z": 0}
+            a2 = {"re": 0} if what == "move" else {"self": 0}
+            lines = [{"op": "Reset", "k": 1, "a": {"W": W, "build": "asan"}},
+                     {"op": "CtorNV", "k": 1, "a": {"n": n, "v": 1}},
+                     {"op": ops[0], "k": 2, "a": a},
+                     {"op": "CtorNV", "k": 1, "a": {"n": n + 3, "v": 1}},
+                     {"op": ops[1], "k": 2, "a": a2}]
+            tp = os.path.join(ctx.sub("probe"), "%s-w%d.ndjson" % (what, W))
+            run_script(ctx, drv, W, lines, tp, "probe-" + what)
+            r = core.validate_trace(ctx, "BitsetTrace", "BitsetTrace.cfg", tp, explain=False)
+            if not r["accepted"] and first_bad is None:
+                first_bad = lines
+            ok = ok and r["accepted"]
+        verdicts[what] = (ok, first_bad)
+    ctx.notes.pop("driver_restarts", None)
+    if verdicts["move"][0]:
+        return True, None
+    # moves fail: blame the moved-from state only if the same script with copies conforms
+    return False, (verdicts["move"][1] if verdicts["copy"][0] else None)
+
+
+def dedupe_violations(ctx):
+    drvrun.dedupe_violations(ctx, MAX_REPORTED)
+
+
+def finish(ctx, caps, q, rule_extra=""):
+    dedupe_violations(ctx)
+    return core.finish(
+        ctx, "model_checking",
+        rule="TLC: L1 exhaustive for widths {2,3}, <=4 bits (quick) or <=5 bits (thorough), two objects; L2=>L1 refinement at the same bounds%s; "
+             "L1 transitions at W=8 (sizes 0..%d, one target object + representative operands, owning and view) enumerated by TLC and %s replayed on the "
+             "real objects; TLC simulation walks; the upstream test file's call sequences; seeded random scripts for uint8/16/32/64 with boundary "
+             "sizes/shifts on %d driver builds. A case is one call with its full observable projection compared by TLC.%s" % (
+                 "" if q else " plus one target object up to 7 bits at W=3",
+                 9 if q else 10, "a sample (25 000; thorough 300 000) stratified over actions and argument classes, a different one for every VERIF_SEED,", 2 if q else 4, rule_extra),
+        assumptions=["the harness projection (operator[], iterators, data(), block iterators, count/any/all/none) is read through the public API",
+                     "moved-from bitsets are %s" % ("observed like any other object (any valid value is accepted)" if caps.get("movedfrom") else
+                                                    "NOT observed on this tree (they are invalid, proposed_fixes/C03-03): the source of a move is re-created at once"),
+                     "capacity() is only required to be >= the reserved size and >= size(); allocator behaviour, XTL_NO_EXCEPTIONS builds "
+                     "(at() cannot throw there) and copies between bitsets of different block types are not modelled",
+                     "aliasing views (two views over the same caller memory, as a view copy or move creates) are not modelled"],
+        exhaustive=False)
+
+
+def apalache_stage(ctx, out):
+    """Stretch goal, recorded only: the representation invariant as an inductive invariant, checked symbolically by
+    Apalache for real block widths (specs/BitsetInductive.tla).  Never changes the verdict."""
+    import shutil
+    spec = os.path.join(core.SPECS, "BitsetInductive.tla")
+    if not shutil.which("apalache-mc"):
+        out["status"] = "apalache-mc not available"
+        return
+
+    def verdict(rc, txt):
+        if "EXITCODE: OK" in txt:
+            return "holds"
+        if "EXITCODE: ERROR (12)" in txt:
+            return "VIOLATED"
+        return "not decided (rc=%s)" % rc
+    rc, txt = core.sh(["apalache-mc", "check", "--cinit=CInit8", "--init=Init", "--inv=Inv", "--length=0",
+                       "--out-dir=" + ctx.sub("apalache-base"), spec], timeout=600, cwd=ctx.sub("apalache-base"))
+    out["base case (Init => Inv)"] = verdict(rc, txt)
+    for cinit, w in (("CInit8", 8), ("CInit64", 64)):
+        d = ctx.sub("apalache-w%d" % w)
+        rc, txt = core.sh(["apalache-mc", "check", "--cinit=" + cinit, "--init=IndInit", "--inv=Inv", "--length=1", "--out-dir=" + d, spec],
+                          timeout=1200, cwd=d)
+        out["inductive step (Inv /\\ Next => Inv'), W=%d, up to 3 blocks" % w] = verdict(rc, txt)
+
+
 def run(ctx):
     q = ctx.quick
-    findings = core.load_findings("C03")
+    findings = core.load_findings(PID)
+    caps = {"movedfrom": False}
+    apa, apa_thread = {}, None
+    if not q and not FAST:
+        apa_thread = threading.Thread(target=apalache_stage, args=(ctx, apa))
+        apa_thread.start()
+
+    # ---- 0. compile-time stage and driver builds (in the background while TLC runs)
+    nsig = signature_stage(ctx)
+    flavours = ["asan"] if ONLY_RND else ["asan", "o2ndebug"] + ([] if q else ["clang", "o0"])
+    builds, build_err = {}, {}
+
+    def do_builds():
+        def one(fl):
+            try:
+                builds[fl] = build_driver(ctx, fl)
+            except MachineryError as x:
+                build_err[fl] = str(x)
+        with ThreadPoolExecutor(max_workers=max(1, min(len(flavours), core.NCPU // 2))) as ex:
+            list(ex.map(one, flavours))
+    bt = threading.Thread(target=do_builds)
+    bt.start()
 
     # ---- 1. L1 model checking
-    r = core.tlc_model_check(ctx, "BitsetMC", "Bitset_mc.cfg" if q else "Bitset_mc_thorough.cfg",
-                             "L1 invariants, laws, observer purity", coverage=not q)
-    if r["violated"]:
-        raise MachineryError("L1 spec Bitset.tla violates its own theorem %s (oracle bug), see %s" % (r["violated"], r["outfile"]))
-    if not q:
-        ctx.notes["l1_action_coverage"] = {k: v for k, v in r.get("coverage", {}).items()}
-        ctx.notes["vacuous_actions"] = sorted(k for k, v in r.get("coverage", {}).items() if v[1] == 0 and k[0].isupper())
+    try:
+        r = {"violated": None} if FAST else \
+            core.tlc_model_check(ctx, "BitsetMC", "Bitset_mc.cfg" if q else "Bitset_mc_thorough.cfg",
+                                 "L1 invariants, laws, observer purity", coverage=not q, timeout=2400)
+        if r["violated"]:
+            raise MachineryError("L1 spec Bitset.tla violates its own theorem %s (oracle bug), see %s" % (r["violated"], r["outfile"]))
+        if not q:
+            ctx.notes["l1_action_coverage"] = {k: v for k, v in r.get("coverage", {}).items()}
+            ctx.notes["vacuous_actions"] = sorted(k for k, v in r.get("coverage", {}).items() if v[1] == 0 and k[0].isupper())
+    finally:
+        bt.join()
+
+    # ---- the driver must exist from here on
+    if "asan" in build_err:
+        named, extra = call_probe_stage(ctx, build_err["asan"])
+        if named or nsig:
+            ctx.log("the conformance driver does not build against this tree; %d signature rows and %d named call families fail" % (nsig, named))
+            ctx.notes["driver_build_failed"] = build_err["asan"][-1500:]
+            return finish(ctx, caps, q, " The run-time stages were skipped: the driver does not build against this tree.")
+        raise MachineryError("the C03 driver does not build although every signature row and every call the property names compiles"
+                             "%s:\n%s" % ((" (not named by the property, but used by the harness: %s)" % "; ".join(extra)) if extra else "", build_err["asan"]))
+    for fl in list(build_err):
+        # a secondary build that fails where the primary one works: compiler-specific, not a property matter
+        raise MachineryError("driver build '%s' failed: %s" % (fl, build_err[fl]))
+    drv = builds["asan"]
+
+    caps["movedfrom"], mf_lines = probe_moved_from(ctx, drv)
+    ctx.notes["moved_from_bitset_is_valid"] = caps["movedfrom"]
+    if not caps["movedfrom"] and mf_lines is None:
+        ctx.log("the moved-from probe fails, and so does the same script with copies: not a moved-from matter, left to the other stages")
+    if not caps["movedfrom"] and mf_lines is not None:
+        # (fix aa4c025 made the moved-from bitset empty; before it this was a NOTE)
+        ctx.violation("a moved-from xdynamic_bitset is not a valid bitset on this tree: after move construction / move assignment the source's "
+                      "observers do not describe one bit sequence (or the driver crashed observing it).  The other stages re-create the source "
+                      "of every move at once.", replay_lines=mf_lines)
 
     # ---- 2. L2 => L1 refinement
-    for cfg2 in (["BitsetImpl_mc.cfg"] if q else ["BitsetImpl_mc_thorough.cfg", "BitsetImpl_mc_thorough2.cfg"]):
-        r2 = core.tlc_model_check(ctx, "BitsetImpl", cfg2, "L2 (block-level transcription) refines L1; unused bits zero", timeout=1500)
+    pref = "BitsetImpl_mc" if caps["movedfrom"] else "BitsetImpl_mcdm"
+    l2 = [pref + ".cfg"] if q else [pref + "_thorough.cfg", pref + "_thorough2.cfg", "BitsetImpl_mc_deep3.cfg"]
+    for cfg2 in ([] if FAST else l2):
+        r2 = core.tlc_model_check(ctx, "BitsetImpl", cfg2, "L2 (block-level transcription) refines L1; unused bits zero", timeout=2400)
         if r2["violated"]:
-            ctx.drift.append("BitsetImpl.tla does not refine Bitset.tla (%s); see %s" % (r2["violated"], r2["outfile"]))
+            ctx.drift.append("BitsetImpl.tla does not refine Bitset.tla (%s, %s); see %s" % (cfg2, r2["violated"], r2["outfile"]))
+    for cfgv in ([] if FAST else ["BitsetViewImpl_mc.cfg"] if q else ["BitsetViewImpl_mc_thorough.cfg", "BitsetViewImpl_mc_thorough2.cfg"]):
+        rv = core.tlc_model_check(ctx, "BitsetViewImpl", cfgv, "L2 of the view (index-level transcription over caller memory): no access outside the span, "
+                                  "guards intact, unused bits zero, refines L1", timeout=2400)
+        if rv["violated"]:
+            ctx.drift.append("BitsetViewImpl.tla: %s violated (%s); see %s" % (rv["violated"], cfgv, rv["outfile"]))
+    if not q and not FAST:
+        # the transcription of the defaulted move operations, with the moved-from object observed: TLC must find the
+        # representation invariant broken (this is the model-level counterpart of the moved-from probe)
+        r2 = core.tlc(ctx, "BitsetImpl", "BitsetImpl_defaulted_move.cfg", name="L2-defaulted-move", timeout=600)
+        ctx.notes["l2_defaulted_move_breaks_RepInv"] = bool(r2["violated"])
 
-    # ---- build the harness from /repo's working tree
-    drv = os.path.join(ctx.work, "bitset_driver")
-    core.build(ctx, os.path.join(core.HARNESS, "bitset", "driver.cpp"), drv)
-
-    scripts = []   # (name, W, lines)
+    scripts = []   # (name, W, lines, flavour)
     rnd = random.Random(ctx.seed)
 
     # ---- 3. S->C: all transitions of L1 at W=8
     edges = []
-    for cfg in ("Bitset_s2c.cfg", "Bitset_s2c_bin_quick.cfg" if q else "Bitset_s2c_bin.cfg"):
-        r3 = core.tlc(ctx, "BitsetMC", cfg, name="s2c-enumerate-" + cfg[:-4], heap="8g", timeout=1200)
-        if r3["violated"]:
-            raise MachineryError("s2c enumeration failed: %s" % r3["outfile"])
-        edges.extend(emitted(r3["out"]))
-        r3["out"] = ""
-    lines, taken = edge_scripts(edges, 8, rnd, limit=25000 if q else None)
-    ctx.log("S->C: %d L1 transitions enumerated by TLC at W=8, %d replayed (%d script events)" % (len(edges), taken, len(lines)))
+    for cfg in (() if ONLY_RND else ("Bitset_s2c.cfg", "Bitset_s2c_bin_quick.cfg" if q else "Bitset_s2c_bin.cfg", "Bitset_s2c_binview.cfg")):
+        edges.extend(enumerate_edges(ctx, cfg))
+    if not caps["movedfrom"]:
+        edges = [e for e in edges if not (e["l"]["op"] in ("CtorMove", "MoveAssign") and e["l"]["a"]["re"] == 0)]
+    sample, per_op = stratified_sample(edges, 25000 if q else 300000, rnd)
+    lines, taken = edge_scripts(sample, 8, rnd)
+    ctx.log("S->C: %d L1 transitions enumerated by TLC at W=8, %d replayed (%d script events), %d actions" % (len(edges), taken, len(lines), len(per_op)))
     ctx.notes["s2c_transitions_enumerated"] = len(edges)
     ctx.notes["s2c_transitions_replayed"] = taken
+    ctx.notes["s2c_per_action_enumerated_replayed"] = per_op
     for i, ch in enumerate(chunk_by_reset(lines, 6 if q else 12)):
-        scripts.append(("s2c-%02d" % i, 8, ch))
+        scripts.append(("s2c-%02d" % i, 8, ch, "asan"))
 
     # ---- 3b. TLC simulation walks (longer histories, both objects, W=8)
     simdir = ctx.sub("sim")
     nsim = 150 if q else 1500
-    core.tlc(ctx, "BitsetMC", "Bitset_sim.cfg", name="s2c-simulate",
-             simulate="file=%s/t,num=%d" % (simdir, nsim), extra=["-depth", "30", "-seed", str(ctx.seed)], workers=4)
-    lines, nwalks = sim_scripts(ctx, simdir, 8)
+    if not ONLY_RND:
+        core.tlc(ctx, "BitsetMC", "Bitset_sim.cfg", name="s2c-simulate",
+                 simulate="file=%s/t,num=%d" % (simdir, nsim), extra=["-depth", "30", "-seed", str(ctx.seed)], workers=min(4, core.NCPU))
+    lines, nwalks = sim_scripts(ctx, simdir, 8, caps)
     ctx.notes["s2c_simulation_walks"] = nwalks
-    scripts.append(("sim", 8, lines))
+    scripts.append(("sim", 8, lines, "asan"))
 
-    # ---- 4. C->S random scripts for every block type
-    for W in (8, 16, 32, 64):
-        nexec, nops = (60, 50) if q else (600, 60)
-        if W == 64:
-            nexec //= 2
-        lines = random_script(ctx.seed, W, nexec, nops)
-        for i, ch in enumerate(chunk_by_reset(lines, 1 if q else 4)):
-            scripts.append(("rnd-w%d-%d" % (W, i), W, ch))
+    # ---- 3c. the upstream tests' own call sequences through the logging harness
+    scripts.append(("upstream", 64, upstream_script(), "asan"))
+
+    # ---- 4. C->S random scripts for every block type, on every driver build
+    for fl in flavours:
+        for W in (8, 16, 32, 64):
+            nexec, nops = (60, 50) if q else (600, 60)
+            if W == 64:
+                nexec //= 2
+            if fl != "asan":
+                nexec = nexec // 3 if q else nexec // 4
+            lines = random_script(ctx.seed, W, nexec, nops, caps, build=fl)
+            for i, ch in enumerate(chunk_by_reset(lines, 1 if (q or fl != "asan") else 4)):
+                scripts.append(("rnd-%s-w%d-%d" % (fl, W, i), W, ch, fl))
 
     # ---- probes for open known findings (each is a tiny script that must still fail)
     for fnd in findings:
         if "probe" in fnd:
-            scripts.append(("probe-" + fnd["id"], fnd["probe"]["W"], fnd["probe"]["script"]))
+            scripts.append(("probe-" + fnd["id"], fnd["probe"]["W"], fnd["probe"]["script"], "asan"))
 
     # ---- run the harness
-    traces = []
+    scripts = [x for x in scripts if x[2]]
     tdir = ctx.sub("traces")
-    for name, W, lines in scripts:
-        sp = os.path.join(tdir, name + ".script")
+
+    def one(item):
+        name, W, lines, fl = item
         tp = os.path.join(tdir, name + ".ndjson")
-        write_script(sp, lines)
-        run_script(ctx, drv, W, sp, tp)
-        traces.append(tp)
+        run_script(ctx, builds[fl], W, lines, tp, name)
+        return tp
+    with ThreadPoolExecutor(max_workers=max(2, core.NCPU // 2)) as ex:
+        traces = list(ex.map(one, scripts))
+    for name, W, lines, fl in scripts:
         ctx.cov["traces_validated_against_impl"] += sum(1 for l in lines if l["op"] == "Reset")
     ctx.sample({"script": [json.dumps(x) for x in scripts[0][2][:12]]})
     ctx.sample({"script": [json.dumps(x) for x in scripts[-1][2][:8]]})
 
     # ---- validate every trace against L1
-    res = core.validate_traces(ctx, "BitsetTrace", "BitsetTrace.cfg", traces, classify=classify(findings))
+    core.validate_traces(ctx, "BitsetTrace", "BitsetTrace.cfg", traces, classify=classify(findings, ctx), max_restarts=3)
     ctx.cov["evaluations"] = ctx.cov["events_validated"]
     ctx.log("validated %d events in %d traces (%d executions)" % (ctx.cov["events_validated"], len(traces), ctx.cov["traces_validated_against_impl"]))
-
-    return core.finish(
-        ctx, "model_checking",
-        rule="TLC: L1 exhaustive for widths {2,3}, <=4 bits (quick) or <=5 bits (thorough), two objects; L2=>L1 refinement at the same bounds; every L1 transition at W=8 "
-             "(sizes 0..%d, one target object + representative operands) replayed on the real objects; TLC simulation walks; "
-             "seeded random scripts for uint8/16/32/64 with boundary sizes/shifts. A case is one call with its full observable "
-             "projection compared by TLC." % (9 if q else 10),
-        assumptions=["the harness projection (operator[], iterators, data(), count/any/all/none) is read through the public API",
-                     "moved-from bitsets and allocator behaviour are not modelled"],
-        exhaustive=False)
+    if apa_thread is not None:
+        apa_thread.join()
+        ctx.notes["apalache_inductive_invariant_recorded_only"] = apa
+        ctx.log("Apalache (recorded only): %s" % apa)
+    return finish(ctx, caps, q)
